@@ -161,9 +161,17 @@ def _forward(case, r, nondefault):
     if F.shape != (K, total):
         return r.fail('shape_changes_with_grad', 'outputs with autograd recording have %s values, without %s' %
                       (F.shape[1], total))
-    ok, G = lib(torch.autograd.grad, F, X, torch.tensor(C), allow_unused=True)
+    ct = torch.tensor(C)
+    ok, G = lib(torch.autograd.grad, F, X, ct, allow_unused=True, retain_graph=True)
     if not ok:
         return r.fail('backward_raise:' + G.bucket, 'backward raised: %s' % G)
+    if not torch.equal(ct, torch.tensor(C)):
+        return r.fail('cotangent_mutated', 'the backward pass modified the cotangent tensor it was given')
+    ok, Gb = lib(torch.autograd.grad, F, X, -2.0 * ct, allow_unused=True)
+    if not ok:
+        return r.fail('second_backward_raise:' + Gb.bucket, 'a second backward pass through the same graph raised: %s' % Gb)
+    if G[0] is not None and (Gb[0] is None or float((Gb[0] + 2.0 * G[0]).abs().max()) > 1e-9 * max(float(G[0].abs().max()), 1e-300)):
+        return r.fail('second_backward_differs', 'pulling back -2g through the same graph is not -2 x the pull-back of g')
     if G[0] is None:
         return r.fail('none_grad', 'input received no gradient')
     got = G[0].detach().numpy().reshape(K, n_in)
@@ -262,7 +270,17 @@ def _inverse(case, r, nondefault):
         return r.fail('shape_changes_with_grad', 'output %s with autograd, %s without' % (tuple(y.shape), out_shape))
     if any(a is not b for a, b in zip(highs, snap)):
         r.fail('mutated_list', 'highpass list modified by the call')
-    ok, G = lib(torch.autograd.grad, y.reshape(K, -1), [ts[k] for k in sub], torch.tensor(Cg), allow_unused=True)
+    ct = torch.tensor(Cg)
+    ok, G = lib(torch.autograd.grad, y.reshape(K, -1), [ts[k] for k in sub], ct, allow_unused=True, retain_graph=True)
+    if ok:
+        if not torch.equal(ct, torch.tensor(Cg)):
+            return r.fail('cotangent_mutated', 'the backward pass modified the cotangent tensor it was given')
+        ok2, Gb = lib(torch.autograd.grad, y.reshape(K, -1), [ts[k] for k in sub], -2.0 * ct, allow_unused=True)
+        if not ok2:
+            return r.fail('second_backward_raise:' + Gb.bucket, 'a second backward pass through the same graph raised: %s' % Gb)
+        for g1_, g2_ in zip(G, Gb):
+            if g1_ is not None and (g2_ is None or float((g2_ + 2.0 * g1_).abs().max()) > 1e-9 * max(float(g1_.abs().max()), 1e-300)):
+                return r.fail('second_backward_differs', 'pulling back -2g through the same graph is not -2 x the pull-back of g')
     if not ok:
         return r.fail('backward_raise:' + G.bucket, 'backward raised (subset %s): %s' % (sub, G))
     for k, gk in zip(sub, G):
